@@ -1,5 +1,6 @@
 import MicroHttp.Props.C18
 import MicroHttp.Props.C18History
+import MicroHttp.Props.C18Transparent
 import MicroHttp.Props.Tables
 #print axioms MicroHttp.C18.kill_wins
 #print axioms MicroHttp.C18.registered_fits_batch
@@ -9,6 +10,9 @@ import MicroHttp.Props.Tables
 #print axioms MicroHttp.C18.history_keeps_kill
 #print axioms MicroHttp.C18.every_poll_with_kill_reports_shutdown
 #print axioms MicroHttp.C18.from_new
+#print axioms MicroHttp.C18.step_setKill
+#print axioms MicroHttp.C18.run_setKill
+#print axioms MicroHttp.C18.transparent_history
 #print axioms MicroHttp.Tables.event_array_extra
 #print axioms MicroHttp.Tables.max_connections
 #print axioms MicroHttp.Tables.no_shared_state
